@@ -2,6 +2,11 @@
 objects.  Extracted from the C20 builder's additions to harness/gen.py; plug-in of harness.gen.regenerate()."""
 import ast
 import collections
+import copy
+import datetime
+import inspect
+import typing
+import collections
 import os
 import sys
 
